@@ -5,7 +5,7 @@ set -e
 cd /verif
 export CARGO_NET_OFFLINE=true
 mkdir -p .cache
-( cd coq && [ -f Makefile ] || coq_makefile -f _CoqProject -o Makefile >/dev/null; cd /verif/coq && timeout 3000 make -j16 2>&1 | grep -v "^COQ\|^make" | tail -20; test ${PIPESTATUS[0]} -eq 0 )
+( cd coq && { [ -f Makefile ] && [ Makefile -nt _CoqProject ]; } || ( cd /verif/coq && coq_makefile -f _CoqProject -o Makefile >/dev/null ); cd /verif/coq && timeout 3000 make -j16 2>&1 | grep -v "^COQ\|^make" | tail -20; test ${PIPESTATUS[0]} -eq 0 )
 ( cd ocaml && if [ ! -f driver ] || [ ../coq/Map.vo -nt driver ] || [ driver.ml -nt driver ] || [ Extract.v -nt driver ]; then
     timeout 600 coqc -Q ../coq G Extract.v 2>&1 | grep -i "^error" -A5 || true
     ocamlfind ocamlopt -w -a model.mli model.ml driver.ml -o driver; fi )
